@@ -356,8 +356,30 @@ def check_cdp_delta(ctx, fi):
         ctx.ob('alpha-range', fi, S.where(a), False, 'cannot order the initial bracket ends `%s`=%s and `%s`=%s' % (a, ia, b, ib))
         return
     lo_init, hi_init = ev.ev(S.inits[lo]), ev.ev(S.inits[hi])
-    ok = lo_init.is_rat() and lo_init.rat().isconst() and lo_init.rat().constval() > 1
-    ctx.ob('alpha-range', fi, S.where(lo), ok, 'lower end of the order bracket must be a literal > 1 (alpha in (1, inf)); is %s' % lo_init,
+    # the searched variable may be the order itself or the order minus one (lam = alpha - 1, the quantity the bound is written in): the
+    # parameterisation is read off the final formula
+    shift = 0
+    try:
+        fin0, _ = S.final[0]
+        d0 = fin0
+        if isinstance(fin0, ast.Call) and U(fin0.func) in ('min', 'builtins.min') and len(fin0.args) == 2:
+            d0 = [x for x in fin0.args if U(x) not in ('1', '1.0')][0]
+        src0 = ev.ev(d0).rat()
+        for c_ in (0, 1):
+            orc = SymEval({'a': sym(alpha) + const(c_), 'rho': sym(rho), 'eps': sym(eps)}, atoms, strict=True).ev(
+                parse('exp((a-1)*(a*rho-eps) + a*log(1-1/a)) / (a-1)')).rat()
+            if src0.eq(orc):
+                shift = c_
+                break
+    except AnalysisError:
+        shift = 0
+    if shift:
+        ctx.note('the order search runs over the order minus %d' % shift)
+        lo_init, hi_init = lo_init + const(shift), hi_init + const(shift)
+    from fractions import Fraction as _Fr
+    ok = lo_init.is_rat() and lo_init.rat().isconst() and 1 < lo_init.rat().constval() <= _Fr(101, 100)
+    ctx.ob('alpha-range', fi, S.where(lo), ok, 'lower end of the order bracket must be a literal in (1, 1.01] (alpha in (1, inf); a higher floor '
+           'excludes the optimal order for large rho / small eps and the bound is no longer the optimum); as an order it is %s' % lo_init,
            construct='lower end of the order bracket')
     # ---- midpoint ------------------------------------------------------------------------------
     mid = ev.ev(S.mid_expr)
@@ -379,7 +401,7 @@ def check_cdp_delta(ctx, fi):
     if ok:
         dexpr = [x for x in final.args if U(x) not in ('1', '1.0')][0]
     delta_src = ev.ev(dexpr).rat()
-    oracle = SymEval({'a': sym(alpha), 'rho': sym(rho), 'eps': sym(eps)}, atoms, strict=True).ev(
+    oracle = SymEval({'a': sym(alpha) + const(shift), 'rho': sym(rho), 'eps': sym(eps)}, atoms, strict=True).ev(
         parse('exp((a-1)*(a*rho-eps) + a*log(1-1/a)) / (a-1)')).rat()
     ctx.ob('delta-formula', fi, S.loop, delta_src.eq(oracle),
            'delta must equal exp((a-1)(a*rho-eps) + a*log(1-1/a))/(a-1) with a = the searched order; source normal form %r' % (delta_src,),
